@@ -151,6 +151,9 @@ def mutations(rng):
     out.append(('--laplace-load-a field 0 = nonfinite', B + ['--laplace-load-a=inf,1e-8', '--laplace-load-b=5,2e-7', '--attach-load=1,2']))
     out.append(('--frequency-increment field 0 = huge', B + ['--frequency-steps=2', '--frequency-increment=1e300']))
     out.append(('-w field 2 = nonfinite', ['-f', '7.1', '-w', '5,0,nan,2,0,0,9,0.001', '--excitation-pulse=1']))
+    out.append(('two transformations with the same sort key', B + ['--geo-rotate=1,0,0,90', '--geo-translate=1,0,0,1']))
+    out.append(('two translations with the same sort key', B + ['--geo-translate=2,0,0,1', '--geo-translate=2,0,0,2']))
+    out.append(('same sort key and an unknown tag', B + ['--geo-translate=2,0,0,1', '--geo-translate=2,0,0,2,4711']))
     out.append(('taper max below min', ['-f', '7.1', '-w', '10,0,0,0,1,0,0,0.001', '--taper-wire=1,1,0.05,0.01', '--excitation-pulse=5']))
     out.append(('taper max below segment', ['-f', '7.1', '-w', '10,0,0,0,1,0,0,0.001', '--taper-wire=1,3,0.01,0.05', '--excitation-pulse=5']))
     out.append(('taper contradictory', ['-f', '7.1', '-w', '10,0,0,0,1,0,0,0.001', '--taper-wire=1,1,0.5,0.1', '--excitation-pulse=5']))
